@@ -132,10 +132,11 @@ type podState struct {
 	inflight int
 	effOps   int // requests that got past the daemon's in-flight gate
 	// reference model of C04 driven by returned results
-	recCID   string // container id of the latest successful ADD ("" none)
-	recV4    string
-	recV6    string
-	held     bool
+	recCID string // container id of the latest successful ADD ("" none)
+	recUID string // uid of the pod instance that made it
+	recV4  string
+	recV6  string
+	held   bool
 	// ledger (C01): addresses the pod's live sandbox holds
 	liveV4, liveV6 string
 	liveENI        string
@@ -453,7 +454,9 @@ func (w *World) checkRecordDelete(key string) {
 			continue
 		}
 		w.run.Eval()
-		if p.exists && p.inflight == 0 {
+		// the record belongs to the pod instance that made the last successful ADD; a namesake
+		// created since is another pod (it has no record yet)
+		if p.exists && p.inflight == 0 && (p.recUID == "" || p.recUID == p.uid) {
 			w.run.Violate("C09", "preserve", "record-of-existing-pod-deleted", "record of pod %s deleted with no DEL in flight while the pod exists in the API server (live sandbox: %v)", p.spec.Name, p.sbReady)
 		}
 	}
@@ -465,8 +468,8 @@ func (w *World) checkRecordDelete(key string) {
 func (w *World) podObject(p *podState) *corev1.Pod {
 	pod := &corev1.Pod{
 		ObjectMeta: metav1.ObjectMeta{Name: p.spec.Name, Namespace: ns, UID: k8stypes.UID(p.uid)},
-		Spec: corev1.PodSpec{NodeName: nodeName, Containers: []corev1.Container{{Name: "c", Image: "i"}}},
-		Status: corev1.PodStatus{Phase: corev1.PodRunning},
+		Spec:       corev1.PodSpec{NodeName: nodeName, Containers: []corev1.Container{{Name: "c", Image: "i"}}},
+		Status:     corev1.PodStatus{Phase: corev1.PodRunning},
 	}
 	if p.spec.Sticky {
 		pod.OwnerReferences = []metav1.OwnerReference{{APIVersion: "apps/v1", Kind: "StatefulSet", Name: "sts", UID: "sts-uid"}}
